@@ -17,6 +17,9 @@ impl Arenas {
 // `ArenaString::from_str(A, ..)` / `GlobalBuiltin::to_string(A, ..)` (= arena_format!(A, ..)): the string lives in A
 #[verifier::external_body]
 fn sbuf_in(a: Region) -> (r: SBuf) ensures r.region@ == a { unimplemented!() }
+// `cow.into_owned(A)` (ArenaCow): an owned string is returned as it is -- wherever it lives -- and only a borrowed one is copied into A
+#[verifier::external_body]
+fn into_owned_in(text: StrV, a: Region) -> (r: SBuf) { unimplemented!() }
 // `command.push_arg(s)`, `set_cwd(s)`, `set_env(k, v)`, `set_stdin_text(s)`: s becomes part of the builder
 #[verifier::external_body]
 fn cmd_store(s: SBuf) requires s.region@ == Region::Persist { unimplemented!() }
@@ -49,7 +52,8 @@ UNIT = VUnit(
                     "res is Ok ==> res->Ok_0.region@ == Region::Persist",
                     "v is Ok && res is Err ==> res->Err_0 == RtErr::TypeMismatch"],
            rewrites=[Rw("R11b", r"let value = self\.eval_expr\(expr\)\?;", "let value = v?;"),
-                     Rw("R8", r"ArenaString::from_str\(self\.(arena|frame), &text\)", r"sbuf_in(me.\1)", min_matches=1), ERR],
+                     Rw("R8", r"ArenaString::from_str\(self\.(arena|frame), &text\)", r"sbuf_in(me.\1)", min_matches=0),
+                     Rw("R8", r"text\.into_owned\(self\.(arena|frame)\)", r"into_owned_in(text, me.\1)", min_matches=0), ERR],
            vacuity="me: &Arenas, v: Result<Value, RtErr>",
            real_name="Runtime::eval_required_string"),
         Raw('''
